@@ -38,6 +38,7 @@ RULES = {
     "fixes.delete_unreachable_code": 5,
     "fixes.early_return": 6,
     "fixes.early_continue": 7,
+    "fixes.breakout_common_code_in_ifs": 8,
 }
 
 B = lambda b: ("B", b)  # noqa
@@ -254,7 +255,43 @@ def fam_early_continue(tier):
     return [p for p in out if M.well_formed(p)]
 
 
-FAMILIES = {"fixes.swap_if_else": fam_swap, "fixes.early_return": fam_early_return,
+def fam_breakout(tier):
+    out = []
+    X, Y, Z = EV1, EV2, ASG
+    atoms = [X, Y, RET, ("pass",), Z]
+    blocks2 = [list(c) for n in (1, 2) for c in itertools.product(atoms, repeat=n)]
+    for t in (C1, KT):
+        for b in blocks2:
+            for e in blocks2:
+                out.append([EV3, ("if", t, b, e), EV3])
+    # nested: deep first / last leaves
+    def iff(t, b, e):
+        return ("if", t, b, e)
+    inner_same = iff(C2, [X, Y], [X, Z])
+    inner_end = iff(C2, [Y, X], [Z, X])
+    inner_ret = iff(C2, [RET], [Z, X])
+    inner_noelse = iff(C2, [X], [])
+    cases = [
+        ([inner_same], [X, Z]), ([inner_same, Y], [inner_same, Z]), ([inner_end], [Y, X]), ([Y, inner_end], [X]),
+        ([inner_ret], [Y, X]), ([inner_ret], [RET]), ([inner_noelse], [X]), ([X, inner_noelse], [X, Y]),
+        ([inner_same], [inner_same]), ([inner_end], [inner_end]), ([X], [iff(C3, [X], [X])]), ([iff(C3, [Y, X], [X])], [X]),
+        ([Y, X], [iff(C3, [X], [RET])]), ([X], [X]), ([("pass",)], [("pass",)]), ([X, RET], [X, RET]),
+        ([iff(C2, [X, RET], [X, ("raise",)])], [X, Y]), ([Y, iff(C2, [RET], [X])], [Z, iff(C3, [X], [("raise",)])]),
+    ]
+    for t in (C1, ("N", C1)):
+        for b, e in cases:
+            out.append([iff(t, b, e), EV3])
+            out.append([EV3, iff(C3, [iff(t, b, e)], [Y])])
+            out.append([("for", IK2, [iff(t, b, e)], [])])
+    # implicit else
+    for b in ([X, RET], [X, Y, ("raise",)], [RET], [iff(C2, [X, RET], [X, ("raise",)])], [X]):
+        for rest in ([X, Y], [X], [RET], [iff(C3, [X], [X, Y])], [Y, X]):
+            out.append([iff(C1, b, [])] + rest)
+            out.append([("while", C3, [iff(C1, b + [("break",)], [])] + rest, [])])
+    return [p for p in out if M.well_formed(p)]
+
+
+FAMILIES = {"fixes.breakout_common_code_in_ifs": fam_breakout, "fixes.swap_if_else": fam_swap, "fixes.early_return": fam_early_return,
             "fixes.early_continue": fam_early_continue, "fixes.fix_if_return": fam_if_return_assign, "fixes.fix_if_assign": fam_if_return_assign}
 
 
@@ -501,15 +538,62 @@ def _sig_truthiness_value_assign(case):
     return site and oracle_differs(p, case["result"], 4, vals=(B(True), B(False))) is None
 
 
-SIGS: dict = {"truthiness_value_return": _sig_truthiness_value_return,
-              "truthiness_value_assign": _sig_truthiness_value_assign}
+def _sig_bool_coercion_dropped(case):
+    return (_sig_truthiness_value_return(case) if case["rule"] == "fixes.fix_if_return"
+            else _sig_truthiness_value_assign(case) if case["rule"] == "fixes.fix_if_assign" else False)
+
+
+def _first_leaves(s):
+    """fixes._all_branches(..., expand_ifs_on="start"); None = IndexError"""
+    if s[0] != "if":
+        return [s]
+    if not s[2] or not s[3]:
+        return None
+    a, b = _first_leaves(s[2][0]), _first_leaves(s[3][0])
+    return None if a is None or b is None else a + b
+
+
+def _reads(t):
+    return set() if t[0] == "K" else set(t[2]) if t[0] == "U" else _reads(t[1])
+
+
+def _interferes(x, t):
+    """may moving statement x in front of the evaluation of test t be observable?"""
+    if tval(t) is not None:
+        return False
+    if x[0] == "pass":
+        return False
+    if x[0] == "asg" and x[2][0] in ("V", "X"):
+        return x[1] in _reads(t)
+    return True          # events, returns, raises, assignments that evaluate a call
+
+
+def _sig_common_stmt_hoisted_over_test(case):
+    """some `if` (with an else, or with a blocking body and an implicit else) has equal first statements / first
+    leaves in both branches, and that statement interferes with the test it is moved over"""
+    for blk in blocks_of(case["program"]):
+        for i, s in enumerate(blk):
+            if s[0] != "if":
+                continue
+            other = s[3] if s[3] else blk[i + 1:]
+            if not other or not s[2]:
+                continue
+            for a, b in (([s[2][0]], [other[0]]), (_first_leaves(s[2][0]), _first_leaves(other[0]))):
+                if a and b and all(x == a[0] for x in a + b) and _interferes(a[0], s[1]):
+                    return True
+    return False
+
+
+# keyed by the same sig names as the sweep's predicates (harness/c02_sweep.py): one finding line per root cause
+SIGS: dict = {"bool_coercion_dropped": _sig_bool_coercion_dropped,
+              "common_stmt_hoisted_over_test": _sig_common_stmt_hoisted_over_test}
 
 
 def match_finding(kf, case):
     for f in kf:
-        if f.kind != "finding" or f.fields.get("site") != case["rule"]:
+        if f.kind != "finding" or f.fields.get("site") not in (case["rule"], "*"):
             continue
-        pred = SIGS.get(f.fields.get("sig", "")) or c02_sweep.SIGS.get(f.fields.get("sig", ""))
+        pred = SIGS.get(f.fields.get("sig", ""))
         try:
             if pred and pred(case):
                 return f
@@ -584,6 +668,11 @@ def check(run: common.Run):
                 continue
             src, out, q = fires_and_expected(mods, name, p)
             if isinstance(q, tuple):
+                if q[:2] == ("raised", "IndexError") and name == "fixes.breakout_common_code_in_ifs":
+                    # DESIGN row 34 (C04): _move_after_scope computes its insertion point on the line after the `if`;
+                    # at the end of the file the rule raises instead of returning.  Outside this property.
+                    hist["outside-domain:breakout-raises-IndexError-at-EOF"] += 1
+                    continue
                 impl_problems.append({"rule": name, "source": src, "output": out, "problem": q})
                 continue
             if q != p:
